@@ -117,16 +117,6 @@ def replay : List Ev → List Frag → Option (List Frag)
   | [], st => some st
   | e :: es, st => match e.step st with | some st' => replay es st' | none => none
 
-/-- bits / references read from the cell the trace starts in (depth 0) -/
-def topReads : List Ev → Nat → Nat × Nat
-  | [], _ => (0, 0)
-  | .rd _ w :: es, 0 => let (b, r) := topReads es 0; (b + w, r)
-  | .rawref :: es, 0 => let (b, r) := topReads es 0; (b, r + 1)
-  | .enter :: es, 0 => let (b, r) := topReads es 1; (b, r + 1)
-  | .enter :: es, d+1 => topReads es (d + 2)
-  | .leave :: es, d+1 => topReads es d
-  | _ :: es, d => topReads es d
-
 /-- a codec whose trace is an exact read script of its encoding: replayed on the encoding followed by ANY continuation
     (and any enclosing cells) it consumes exactly the encoding, every entered cell being exhausted when it is left -/
 class Traced (c : Codec) : Prop where
